@@ -17,7 +17,7 @@ RUN_TIMEOUT = 120
 SELFTEST_PAIRS = {"quick": 12, "thorough": 40}
 PROBES = ["empty_page_with_nextlink", "fault_on_folder_pass", "fault_on_token", "fault_on_site", "fault_on_folder_by_path",
           "fault_on_next_page", "consumer_closed_midway", "multi_call_history", "named_drive", "bound_exactly_on_timestamp",
-          "relax_404_folder_lookup", "fractional_timestamp", "second_fault_during_retry", "second_fault_on_token", "repeat_with_same_argument_objects"]
+          "relax_404_folder_lookup", "fractional_timestamp", "second_fault_during_retry", "second_fault_on_token", "repeat_with_same_argument_objects", "two_listings_consumed_alternately"]
 RULE = ("one run = one simulated library (random tree, page-size policy, 1-3 listing calls with filters) executed "
         "fault-free against a reference walk, then once per (request index k, fault kind), a seeded share of those followed by a second "
         "fault at a seeded request of the caller's retry, always ending with a healthy retry; "
@@ -239,7 +239,13 @@ def gen_case(rng: random.Random, tier: str) -> dict:
     kinds = rng.sample(CORE_KINDS, nk)
     if rng.random() < 0.6:
         kinds += rng.sample(EXT_KINDS, rng.choice([2, 4, len(EXT_KINDS)]))
-    return {"lib": {"site": site, "drives": drives, "pages": pages}, "calls": calls, "faults": {"mode": "enumerate", "kinds": kinds,
+    inter = None
+    if len(calls) >= 2 and rng.random() < 0.5:
+        ia, ib = rng.sample(range(len(calls)), 2)
+        inter = {"pair": [ia, ib], "pattern": [rng.randrange(2) for _ in range(rng.choice([2, 3, 7]))]}
+        if len(set(inter["pattern"])) < 2:
+            inter["pattern"] = [0, 1]
+    return {"interleave": inter, "lib": {"site": site, "drives": drives, "pages": pages}, "calls": calls, "faults": {"mode": "enumerate", "kinds": kinds,
             "cap": 80 if tier == "quick" else 200, "pick": rng.randrange(1 << 30),
             "second": rng.choice([0, 0, 0.25, 0.25, 1.0])}, "status_attr": rng.random() < 0.8}
 
@@ -361,24 +367,53 @@ def _args_for(call, held, tagc):
     return a
 
 
+def _start(client, call, a):
+    kind = call["kind"]
+    drive = call.get("drive") or None
+    if kind == "list_all_files":
+        return client.list_all_files()
+    if kind == "list_files_in_folder":
+        return client.list_files_in_folder(call["folder"], drive_id=drive)
+    if kind == "list_files_filtered":
+        return client.list_files_filtered(a["filter"], drive_id=drive)
+    if kind == "list_files_modified_since":
+        return client.list_files_modified_since(a["since"], folder_paths=a["folder_paths"], extensions=a["extensions"], drive_id=drive)
+    return client.list_files_created_since(a["since"], folder_paths=a["folder_paths"], extensions=a["extensions"], drive_id=drive)
+
+
+def _interleaved(client, calls, idx, pattern, held):
+    """two listings of one client consumed alternately (a program that zips two lazy listings): -> [(items, exc)] per listing"""
+    its, outs, excs, alive = [], [[], []], [None, None], [True, True]
+    for j, ci in enumerate(idx):
+        try:
+            its.append(iter(_start(client, calls[ci], _args_for(calls[ci], held, ci))))
+        except BaseException as e:  # noqa
+            its.append(iter(()))
+            excs[j] = e
+    i = 0
+    while any(alive) and i < 100000:
+        j = pattern[i % len(pattern)]
+        i += 1
+        if not alive[j]:
+            j = 1 - j
+        try:
+            outs[j].append(next(its[j]))
+        except StopIteration:
+            alive[j] = False
+        except BaseException as e:  # noqa
+            alive[j] = False
+            excs[j] = e
+    return [(outs[0], excs[0]), (outs[1], excs[1])]
+
+
 def _invoke(client, sim, call, viol, tagc, held=None):
     """Run one listing call, consuming lazily; returns (items, exception, closed_early)."""
     kind = call["kind"]
-    drive = call.get("drive") or None
     items = []
     exc = None
     a = _args_for(call, held, tagc)
     try:
-        if kind == "list_all_files":
-            res = client.list_all_files()
-        elif kind == "list_files_in_folder":
-            res = client.list_files_in_folder(call["folder"], drive_id=drive)
-        elif kind == "list_files_filtered":
-            res = client.list_files_filtered(a["filter"], drive_id=drive)
-        elif kind == "list_files_modified_since":
-            res = client.list_files_modified_since(a["since"], folder_paths=a["folder_paths"], extensions=a["extensions"], drive_id=drive)
-        else:
-            res = client.list_files_created_since(a["since"], folder_paths=a["folder_paths"], extensions=a["extensions"], drive_id=drive)
+        res = _start(client, call, a)
         if isinstance(res, list):
             items = list(res)
         else:
@@ -564,6 +599,18 @@ def run_case(case: dict) -> dict:
             if exc is not None or _tuples(items) != refs[ci]:
                 viol.append({"class": "faultfree_wrong_listing", "sig": f"{call['kind']}|second_run_same_arguments",
                              "detail": f"call {ci} {call} repeated with the same argument objects: exc={exc!r}, {len(items)} items, reference {len(refs[ci])}"})
+    if not viol and len(calls) >= 2 and case.get("interleave"):
+        # two listings of the history consumed alternately on one (fresh) client: each still yields its own complete listing
+        simz, clz = _new(lib, log, case.get('status_attr', True))
+        ia, ib = case["interleave"]["pair"]
+        for (items, exc), ci in zip(_interleaved(clz, calls, [ia, ib], case["interleave"]["pattern"], {}), (ia, ib)):
+            evals += 1
+            probe("two_listings_consumed_alternately")
+            if exc is not None or _tuples(items) != refs[ci]:
+                viol.append({"class": "faultfree_wrong_listing", "sig": f"{calls[ci]['kind']}|interleaved_with_another_listing",
+                             "detail": f"call {ci} {calls[ci]} consumed alternately with call {ib if ci == ia else ia}: exc={exc!r}, {len(items)} items, reference {len(refs[ci])}"})
+        if simz.open_responses():
+            viol.append({"class": "response_left_open", "sig": "interleaved|after_return", "detail": f"{simz.open_responses()} responses open after two interleaved listings"})
     fresh_n = []
     for ci, call in enumerate(calls):  # request budget of a healthy retry: what a fresh client needs for this call alone
         sim_f, cl_f = _new(lib, None, case.get('status_attr', True))
@@ -735,6 +782,9 @@ def shrink(case):
         for i in range(len(case["calls"])):
             c = copy.deepcopy(case)
             del c["calls"][i]
+            if c.get("interleave"):
+                pr = [j - (j > i) for j in c["interleave"]["pair"] if j != i]
+                c["interleave"] = dict(c["interleave"], pair=pr) if len(pr) == 2 else None
             if c["faults"]["mode"] == "list":
                 c["faults"] = _reenum(case)
             yield c
